@@ -339,19 +339,35 @@ fn judge<M>(
         Ok(Err(_)) => return Outcome::skip("encode_err"),
         Ok(Ok(y)) => y,
     };
-    let cls = |what: &str| format!("{variant}|{what}|{feature}");
+    let cls = |what: &str| {
+        let mut parts: Vec<&str> = Vec::new();
+        for p in [variant, what, feature] {
+            if !p.is_empty() {
+                parts.push(p);
+            }
+        }
+        parts.join("|")
+    };
     match catch(|| decode(&y, model)) {
-        Err(p) => enumr::fail("roundtrip", cls("decode_panic"), format!("x={} |y|={} decoder panicked: {}", brief(x), y.len(), p.detail)),
-        Ok(Err(e)) => enumr::fail("roundtrip", cls("decode_err"), format!("x={} |y|={} decoder returned Err({e})", brief(x), y.len())),
+        Err(p) => enumr::fail(
+            "roundtrip",
+            cls(&format!("decode_panic@{}", p.class)),
+            format!("x={} |y|={} decoder panicked: {}", brief(x), y.len(), p.detail),
+        ),
+        Ok(Err(e)) => enumr::fail(
+            "roundtrip",
+            cls(&format!("decode_err({})", norm_msg(&e))),
+            format!("x={} |y|={} decoder returned Err({e})", brief(x), y.len()),
+        ),
         Ok(Ok(z)) => {
             if z.len() != x.len() {
-                enumr::fail("roundtrip", cls("wrong_len"), format!("x={} decoded {} bytes: {}", brief(x), z.len(), brief(&z)))
+                enumr::fail("roundtrip", cls("wrong_output"), format!("wrong length: x={} decoded {} bytes: {}", brief(x), z.len(), brief(&z)))
             } else if z != x {
                 let at = z.iter().zip(x).position(|(a, b)| a != b).unwrap_or(0);
                 enumr::fail(
                     "roundtrip",
-                    cls("wrong_bytes"),
-                    format!("x={} decoded={} first difference at {at}: {:02x} != {:02x}", brief(x), brief(&z), z[at], x[at]),
+                    cls("wrong_output"),
+                    format!("wrong bytes: x={} decoded={} first difference at {at}: {:02x} != {:02x}", brief(x), brief(&z), z[at], x[at]),
                 )
             } else if x.is_empty() {
                 Outcome::trivial("ok|empty")
@@ -362,6 +378,24 @@ fn judge<M>(
             }
         }
     }
+}
+
+/// Error message with every number replaced by '#' and cut to 48 chars: a stable name for "which check refused".
+fn norm_msg(m: &str) -> String {
+    let mut out = String::new();
+    let mut in_num = false;
+    for ch in m.chars() {
+        if ch.is_ascii_digit() {
+            if !in_num {
+                out.push('#');
+            }
+            in_num = true;
+        } else {
+            in_num = false;
+            out.push(ch);
+        }
+    }
+    out.chars().take(48).collect()
 }
 
 fn freqs(t: &[u8]) -> [u32; 256] {
@@ -543,34 +577,84 @@ fn fse_preset(name: &str) -> FseConfig {
         "high_compression" => FseConfig::high_compression(),
         "realtime" => FseConfig::realtime(),
         "balanced" => FseConfig::balanced(),
-        // not a preset: the high_compression preset with a block size small enough for the grid to reach the
-        // parallel framing (compress_parallel / decompress_parallel)
+        // not presets (public fields): the high_compression preset with a block size small enough for the grid to
+        // reach the parallel framing (compress_parallel / decompress_parallel) ...
         "high_compression/block=1024" => FseConfig { block_size: 1024, ..FseConfig::high_compression() },
+        // ... and the default preset with `adaptive` off, so that a re-used encoder keeps the table of its first call
+        "default/adaptive=false" => FseConfig { adaptive: false, ..FseConfig::default() },
         other => panic!("unknown preset {other}"),
     }
 }
 
-fn fse_feature(x: &[u8]) -> String {
-    // 100 = literal-block threshold of compress_single_internal
-    let lc = if x.is_empty() {
-        "n=0"
-    } else if x.len() < 100 {
-        "n<100"
-    } else {
-        "n>=100"
-    };
-    let maxsym = x.iter().copied().max().unwrap_or(0);
-    format!("{lc}|{}|{}", alpha_class(x), if maxsym == 0 { "only_0x00" } else { "has_nonzero" })
+/// Observable facts (public API: `FseTable::new(..).enc_symbols`) about the table the encoder used for `x`, given
+/// the frequencies `model` it was built from.
+fn fse_fact(model: &[u32; 256], cfg: &FseConfig, x: &[u8]) -> &'static str {
+    if x.len() < 100 {
+        return "n<100(stored)";
+    }
+    match catch(|| zipora::entropy::fse::FseTable::new(model, cfg)) {
+        Ok(Ok(t)) => {
+            let mut absent = false;
+            let mut slotless = false;
+            for &b in x {
+                if t.enc_symbols[b as usize].freq == 0 {
+                    if model[b as usize] == 0 {
+                        absent = true;
+                    } else {
+                        slotless = true;
+                    }
+                }
+            }
+            if slotless {
+                "payload_symbol_normalised_to_0_slots"
+            } else if absent {
+                "payload_symbol_absent_from_model"
+            } else {
+                "every_payload_symbol_has_a_slot"
+            }
+        }
+        _ => "table_err",
+    }
 }
 
-fn run_fse(v: &str, x: &[u8], t: &[u8], tr: Train) -> Outcome {
-    let feat = fse_feature(x);
+/// Failure classes of the FSE family do not contain the preset name (one normaliser defect shows under every
+/// preset) but the normaliser in use and `fse_fact`; a decoder `Err` is classified by its message alone.
+fn fse_class(o: Outcome, cfg: &FseConfig, fact: &str, blocks: bool) -> Outcome {
+    match o {
+        Outcome::Fail(mut f) => {
+            if !f.class.starts_with("decode_err(") {
+                f.class = format!(
+                    "{}|normaliser={}|{}{}",
+                    f.class,
+                    if cfg.entropy_optimization { "entropy" } else { "simple" },
+                    fact,
+                    if blocks { "|parallel_blocks" } else { "" }
+                );
+            }
+            Outcome::Fail(f)
+        }
+        o => o,
+    }
+}
+
+fn add_freqs(a: &[u32; 256], b: &[u32; 256]) -> [u32; 256] {
+    let mut r = *a;
+    for i in 0..256 {
+        r[i] += b[i];
+    }
+    r
+}
+
+fn run_fse(v: &str, x: &[u8], t: &[u8], _tr: Train) -> Outcome {
     // variants:  fse_compress | fse_zip | encoder[<preset>] | encoder[<preset>]+object | ..+reused | ..+dict
+    let dflt = FseConfig::default();
     if v == "fse_compress" {
-        return judge(v, x, &feat, || Ok((fse_compress(x).map_err(es)?, ())), |y, _| fse_decompress(y).map_err(es));
+        let o = judge("", x, "", || Ok((fse_compress(x).map_err(es)?, ())), |y, _| fse_decompress(y).map_err(es));
+        return fse_class(o, &dflt, fse_fact(&freqs(x), &dflt, x), false);
     }
     if v == "fse_zip" {
-        return judge(v, x, &feat, || Ok((fse_zip(x).map_err(es)?, ())), |y, _| fse_unzip(y).map_err(es));
+        let o = judge("", x, "", || Ok((fse_zip(x).map_err(es)?, ())), |y, _| fse_unzip(y).map_err(es));
+        return fse_class(o, &dflt, fse_fact(&freqs(x), &dflt, x), false);
     }
     let inner = v.trim_start_matches("encoder[");
     let (preset, mode) = match inner.split_once(']') {
@@ -578,41 +662,53 @@ fn run_fse(v: &str, x: &[u8], t: &[u8], tr: Train) -> Outcome {
         None => (inner, ""),
     };
     let cfg = fse_preset(preset);
-    let c2 = cfg.clone();
-    match mode {
-        "" => judge(v, x, &feat, || Ok((fse_compress_with_config(x, cfg).map_err(es)?, ())), |y, _| fse_decompress_with_config(y, c2).map_err(es)),
-        "+object" => judge(
-            v,
-            x,
-            &feat,
-            || Ok((FseEncoder::new(cfg).map_err(es)?.compress(x).map_err(es)?, ())),
-            |y, _| FseDecoder::with_config(c2).map_err(es)?.decompress(y).map_err(es),
+    let (c1, c2) = (cfg.clone(), cfg.clone());
+    let blocks = cfg.parallel_blocks.is_some() && x.len() > cfg.block_size * 2;
+    let (o, model) = match mode {
+        "" => (
+            judge("", x, "", || Ok((fse_compress_with_config(x, c1).map_err(es)?, ())), |y, _| fse_decompress_with_config(y, c2).map_err(es)),
+            freqs(x),
         ),
-        "+reused" => {
+        "+object" => (
+            judge(
+                "",
+                x,
+                "",
+                || Ok((FseEncoder::new(c1).map_err(es)?.compress(x).map_err(es)?, ())),
+                |y, _| FseDecoder::with_config(c2).map_err(es)?.decompress(y).map_err(es),
+            ),
+            freqs(x),
+        ),
+        "+reused" => (
             // one encoder object compresses the training data first, then the payload ("model trained on
             // unrelated data": with `adaptive == false` the table of the first call is kept)
-            let feat = format!("{feat}|{}", if tr == Train::Same || covers(t, x) { "first_covers" } else { "first_misses_symbol" });
             judge(
-                v,
+                "",
                 x,
-                &feat,
+                "",
                 || {
-                    let mut e = FseEncoder::new(cfg).map_err(es)?;
+                    let mut e = FseEncoder::new(c1).map_err(es)?;
                     let _ = e.compress(t).map_err(es)?;
                     Ok((e.compress(x).map_err(es)?, ()))
                 },
                 |y, _| FseDecoder::with_config(c2).map_err(es)?.decompress(y).map_err(es),
-            )
-        }
-        "+dict" => judge(
-            v,
-            x,
-            &feat,
-            || Ok((FseEncoder::with_dictionary(cfg, t.to_vec()).map_err(es)?.compress(x).map_err(es)?, ())),
-            |y, _| FseDecoder::with_config(c2).map_err(es)?.decompress(y).map_err(es),
+            ),
+            if cfg.adaptive || t.is_empty() { freqs(x) } else { freqs(t) },
+        ),
+        "+dict" => (
+            judge(
+                "",
+                x,
+                "",
+                || Ok((FseEncoder::with_dictionary(c1, t.to_vec()).map_err(es)?.compress(x).map_err(es)?, ())),
+                |y, _| FseDecoder::with_config(c2).map_err(es)?.decompress(y).map_err(es),
+            ),
+            add_freqs(&freqs(x), &freqs(t)),
         ),
         other => panic!("unknown fse mode {other}"),
-    }
+    };
+    let fact = fse_fact(&model, &cfg, x);
+    fse_class(o, &cfg, fact, blocks)
 }
 
 /// variant = "b[<min>,<max>,<entries>,<window>]/c[<min>,<max>]": DictionaryBuilder parameters / compressor parameters
@@ -645,11 +741,12 @@ fn run_dictionary(v: &str, x: &[u8], t: &[u8], tr: Train) -> Outcome {
 
 /// variant = "new" | "cfg[<min>,<max>,<window>]"
 fn run_optimized_dictionary(v: &str, x: &[u8], t: &[u8], tr: Train) -> Outcome {
-    let feat = lz_feature(x, t, tr);
+    // the class names only what matters for this codec: was the model built from the payload or from other data
+    let feat = if tr == Train::Same || t == x { "train=payload" } else { "train=other" };
     judge(
-        v,
+        "",
         x,
-        &feat,
+        feat,
         || {
             let oc = if v == "new" {
                 OptimizedDictionaryCompressor::new(t)
@@ -793,21 +890,67 @@ fn sv(v: &[&str]) -> Vec<String> {
     v.iter().map(|s| s.to_string()).collect()
 }
 
+fn debug(what: &str) {
+    use zipora::entropy::fse::FseTable;
+    let parts: Vec<&str> = what.split(':').collect();
+    let shape: Sh = serde_json::from_str(&format!("\"{}\"", parts[0])).unwrap();
+    let n: usize = parts[1].parse().unwrap();
+    let k: usize = parts[2].parse().unwrap();
+    let x = expand(shape, n, k);
+    let f = freqs(&x);
+    let t = FseTable::new(&f, &FseConfig::default()).unwrap();
+    let mut sum = 0u32;
+    let mut zero = vec![];
+    for s in 0..256 {
+        sum += t.enc_symbols[s].freq as u32;
+        if f[s] > 0 && t.enc_symbols[s].freq == 0 {
+            zero.push(s);
+        }
+    }
+    eprintln!("distinct={} sum_norm={} zero_slot_symbols={:?}", distinct(&x), sum, zero);
+    let y = fse_compress(&x).unwrap();
+    let z = fse_decompress(&y).unwrap();
+    let at = z.iter().zip(&x).position(|(a, b)| a != b);
+    eprintln!("|y|={} first diff {:?}", y.len(), at);
+}
+
 fn main() {
+    if let Ok(d) = std::env::var("C01_DEBUG") {
+        debug(&d);
+        return;
+    }
     zverif::main_with("C01", |reg, tier| {
         let q = tier == Tier::Quick;
-        // the full space: fast codecs
+        const K_RANS: &[usize] = &[1, 2, 3, 4, 17, 255, 256];
+        const K3: &[usize] = &[2, 17, 256];
+        const N_ADAPT: &[usize] = &[5328, 5329, 5330]; // 73*73: AdaptiveRans64Encoder::select_variant
+        const N_CTX: &[usize] = &[0, 1, 2, 3, 4, 5, 8, 9, 64, 100, 257, 1025, 4097];
+        const N_IL: &[usize] = &[0, 1, 2, 3, 4, 5, 7, 8, 9, 17, 100, 1025];
+        const N_CTX_T: &[usize] = &[0, 1, 2, 3, 4, 5, 7, 8, 9, 15, 16, 17, 64, 100, 255, 256, 257, 1024, 1025, 4097];
+        // 10 = effective minimum match of both LZ coders, 258 = default maximum match
+        const N_LZ: &[usize] = &[0, 1, 2, 3, 9, 10, 11, 12, 19, 20, 21, 100, 257, 258, 259, 260, 516, 517, 1025];
+        const SH_SLOW: &[Sh] = &[Sh::Cyclic, Sh::Geometric, Sh::Noise, Sh::CtxSkew, Sh::Zero];
+        const SH_IL: &[Sh] = &[Sh::Cyclic, Sh::Noise, Sh::CtxSkew, Sh::Zero];
+        const SH_LZ: &[Sh] = &[Sh::Cyclic, Sh::Runs, Sh::Periodic, Sh::Zero, Sh::Noise, Sh::Period, Sh::English, Sh::AllBytes];
+
+        // cheap codecs: the whole grid
         let full = if q {
-            def(6, &[N_QUICK], K_FULL, SHAPES_ALL)
+            def(6, &[N_QUICK, N_ADAPT], K_FULL, SHAPES_ALL)
         } else {
             def(8, &[N_QUICK, N_THOROUGH_EXTRA, N_HUGE], K_FULL, SHAPES_ALL)
         };
-        // codecs whose model construction costs milliseconds (256 trees per model)
-        let medium = if q { def(5, &[N_SMALL], K_SMALL, SHAPES_ALL) } else { def(7, &[N_QUICK, N_THOROUGH_EXTRA], K_FULL, SHAPES_ALL) };
-        let slow = if q { def(4, &[N_SMALL], K_SMALL, SHAPES_ALL) } else { def(6, &[N_QUICK], K_SMALL, SHAPES_ALL) };
-        // O(n * window) LZ search: n <= 4097 (quick) / 8193 (thorough)
-        let lz = if q { def(5, &[N_SMALL], K_SMALL, SHAPES_ALL) } else { def(7, &[N_QUICK, N_THOROUGH_EXTRA], K_SMALL, SHAPES_ALL) };
+        let huff = if q { def(5, &[N_QUICK], K_FULL, SHAPES_ALL) } else { def(7, &[N_QUICK, N_THOROUGH_EXTRA, N_HUGE], K_FULL, SHAPES_ALL) };
+        let par = if q { def(5, &[N_SMALL], K_FULL, SHAPES_ALL) } else { def(6, &[N_QUICK, N_THOROUGH_EXTRA], K_FULL, SHAPES_ALL) };
+        let rans = if q { def(5, &[N_QUICK], K_RANS, SHAPES_ALL) } else { def(7, &[N_QUICK, N_THOROUGH_EXTRA, N_HUGE], K_RANS, SHAPES_ALL) };
+        // codecs whose model construction costs 20..200 ms (up to 1025 trees of 256 symbols per model)
+        let ctx = if q { def(3, &[N_CTX], K3, SH_SLOW) } else { def(5, &[N_CTX_T], K_SMALL, SHAPES_ALL) };
+        let il = if q { def(3, &[N_IL], K3, SH_IL) } else { def(5, &[N_CTX_T], K_SMALL, SHAPES_ALL) };
+        // O(n * min(n, 32768)) LZ search: n <= 1025 (quick) / 8193 (thorough)
+        let lz = if q { def(4, &[N_LZ], K_SMALL, SH_LZ) } else { def(6, &[N_LZ, N_SMALL, N_THOROUGH_EXTRA], K_SMALL, SH_LZ) };
+        let lz_opt = if q { def(5, &[N_LZ, N_SMALL], K_SMALL, SH_LZ) } else { def(7, &[N_LZ, N_QUICK, N_THOROUGH_EXTRA], K_SMALL, SHAPES_ALL) };
         let all_tr = ALL_TRAIN.to_vec();
+        let tr4 = vec![Train::Same, Train::Uniform, Train::MinusRarest, Train::English];
+        let tr3 = vec![Train::Same, Train::Uniform, Train::MinusRarest];
         let same = vec![Train::Same];
 
         reg.add(Enum(Family {
@@ -819,19 +962,23 @@ fn main() {
         }));
         reg.add(Enum(Family {
             name: "ContextualHuffman",
-            variants: sv(&["order0", "order1", "order2", "order1+serialize", "order2+serialize"]),
-            trains: all_tr.clone(),
-            space: medium.clone(),
+            variants: if q {
+                sv(&["order0", "order1", "order2", "order2+serialize"])
+            } else {
+                sv(&["order0", "order1", "order2", "order1+serialize", "order2+serialize"])
+            },
+            trains: if q { tr3.clone() } else { tr4.clone() },
+            space: ctx.clone(),
             run: run_contextual,
         }));
         reg.add(Enum(Family {
             name: "ContextualHuffman::encode_xN/decode_xN",
             variants: sv(&["x1", "x2", "x4", "x8"]),
-            trains: all_tr.clone(),
-            space: slow.clone(),
+            trains: if q { tr3.clone() } else { tr4.clone() },
+            space: il.clone(),
             run: run_interleaved,
         }));
-        reg.add(Enum(Family { name: "Rans64", variants: sv(&["x1", "x2", "x4", "x8"]), trains: all_tr.clone(), space: full.clone(), run: run_rans }));
+        reg.add(Enum(Family { name: "Rans64", variants: sv(&["x1", "x2", "x4", "x8"]), trains: all_tr.clone(), space: rans.clone(), run: run_rans }));
         reg.add(Enum(Family {
             name: "AdaptiveRans64Encoder",
             variants: sv(&["encode_adaptive"]),
@@ -858,11 +1005,18 @@ fn main() {
         }));
         reg.add(Enum(Family {
             name: "Fse/trained",
-            variants: sv(&["encoder[realtime]+reused", "encoder[default]+reused", "encoder[default]+dict", "encoder[fast_compression]+dict"]),
+            variants: sv(&[
+                "encoder[realtime]+reused",
+                "encoder[default]+reused",
+                "encoder[default/adaptive=false]+reused",
+                "encoder[default]+dict",
+                "encoder[fast_compression]+dict",
+            ]),
             trains: vec![Train::Uniform, Train::Reversed, Train::MinusRarest, Train::English],
-            space: medium.clone(),
+            space: huff.clone(),
             run: run_fse,
         }));
+        // `DictionaryCompressor::compress` never consults the dictionary it was given: the builder grid is kept small
         reg.add(Enum(Family {
             name: "DictionaryCompressor",
             variants: sv(&[
@@ -872,7 +1026,7 @@ fn main() {
                 "b[3,258,4096,32768]/c[1,8]",
                 "b[4,300,1,1]/c[3,300]",
             ]),
-            trains: vec![Train::Same, Train::English, Train::MinusRarest],
+            trains: vec![Train::Same, Train::English],
             space: lz.clone(),
             run: run_dictionary,
         }));
@@ -880,7 +1034,7 @@ fn main() {
             name: "OptimizedDictionaryCompressor",
             variants: sv(&["new", "cfg[3,258,64]", "cfg[12,16,32768]", "cfg[4,300,32768]"]),
             trains: all_tr.clone(),
-            space: lz.clone(),
+            space: lz_opt.clone(),
             run: run_optimized_dictionary,
         }));
         reg.add(Enum(Family {
@@ -894,8 +1048,8 @@ fn main() {
                 "x8/high_throughput/auto",
                 "x4/min_parallel=256/trained",
             ]),
-            trains: all_tr.clone(),
-            space: full.clone(),
+            trains: tr3.clone(),
+            space: par.clone(),
             run: run_parallel_huffman,
         }));
         reg.add(Enum(Family {
@@ -908,8 +1062,8 @@ fn main() {
         reg.add(Enum(Family {
             name: "SimdHuffmanEncoder",
             variants: sv(&["Avx2Bmi2", "Avx2", "Sse42Bmi2", "Sse42", "Bmi2", "Scalar"]),
-            trains: all_tr.clone(),
-            space: full.clone(),
+            trains: tr4.clone(),
+            space: huff.clone(),
             run: run_simd_huffman,
         }));
     });
